@@ -36,32 +36,76 @@ def canon_path(p):
     return dict(root=root, parts=parts)
 
 
-def fill(i, nd, objs, rev=False):
+def refs_ready(v, objs):
+    t = v["t"]
+    if t == "ref":
+        return v["n"] in objs
+    if t == "list":
+        return all(refs_ready(x, objs) for x in v["v"])
+    if t == "dict":
+        return all(refs_ready(x, objs) for _, x in v["v"])
+    return True
+
+
+def plan_of(nd, second):
+    """(names in the order they are given, how many of the leading ones go to the constructor)"""
+    names = [k for k, _ in nd["fields"]]
+    order = nd.get("order2" if second and "order2" in nd else "order") or []
+    order = [names[x] if isinstance(x, int) else x for x in order]
+    order = [x for x in order if x in names]
+    order += [x for x in names if x not in order]
+    kw = nd.get("kw2" if second and "kw2" in nd else "kw") or 0
+    return order, kw
+
+
+def create(i, nd, objs, rev, second):
+    """Builds configuration i.  The order of the .values dict of a configuration is its ASSIGNMENT order:
+    defaults of the arguments not given to the constructor (declaration order), then the keywords in the
+    order they are written; a later assignment keeps the position of its key.  The leading `kw` names of
+    the plan are constructor keywords when the objects they refer to exist already; the others are
+    assigned afterwards (returned)."""
+    order, kw = plan_of(nd, second)
+    fields = dict((k, v) for k, v in nd["fields"])
+    kwargs, later = {}, []
+    for pos, name in enumerate(order):
+        if pos < kw and refs_ready(fields[name], objs):
+            kwargs[name] = value_of(fields[name], objs, rev)
+        else:
+            later.append(name)
+    objs[i] = S.CLASSES[nd["cls"]](**kwargs)
+    return later
+
+
+def finish(i, nd, later, objs, rev):
     o = objs[i]
-    # assignment order is arbitrary: the walk follows the declaration order
-    for k in nd.get("order") or range(len(nd["fields"])):
-        name, v = nd["fields"][k]
-        setattr(o, name, value_of(v, objs, rev))
+    fields = dict((k, v) for k, v in nd["fields"])
+    for name in later:
+        setattr(o, name, value_of(fields[name], objs, rev))
     if nd["pre"]:
         o.add_pretasks(*[objs[j] for j in nd["pre"]])
 
 
-def build_and_submit(case, rev=False):
+def build_and_submit(case, rev=False, second=False):
     nodes = case["nodes"]
     objs = {}
-    for i, nd in enumerate(nodes):
-        if nd["cls"] != "Out":
-            objs[i] = S.CLASSES[nd["cls"]]()
-    # configurations sealed by earlier submissions
-    for i, nd in enumerate(nodes):
-        if nd["sealed"]:
-            fill(i, nd, objs, rev)
+    # configurations sealed by earlier submissions (references go to higher indices: built first)
+    todo = {}
+    for i in reversed(range(len(nodes))):
+        if nodes[i]["sealed"] and nodes[i]["cls"] != "Out":
+            todo[i] = create(i, nodes[i], objs, rev, second)
+    for i, later in todo.items():
+        finish(i, nodes[i], later, objs, rev)
     for pid, oid in case["producers"]:
         objs[oid] = objs[pid].submit(run_mode=RunMode.DRY_RUN)
-    for i, nd in enumerate(nodes):
-        if not nd["sealed"] and nd["cls"] != "Out":
-            fill(i, nd, objs, rev)
+    todo = {}
+    for i in reversed(range(len(nodes))):
+        if not nodes[i]["sealed"] and nodes[i]["cls"] != "Out":
+            todo[i] = create(i, nodes[i], objs, rev, second)
+    for i, later in todo.items():
+        finish(i, nodes[i], later, objs, rev)
     sealed_before = [bool(objs[i].__xpm__._sealed) for i in range(len(nodes))]
+    # the input as it really is: key order of the .values dict of every configuration
+    vorder = [list(objs[i].__xpm__.values.keys()) for i in range(len(nodes))]
     root = objs[case["root"]]
     exc = None
     try:
@@ -77,7 +121,7 @@ def build_and_submit(case, rev=False):
             if arg.generator is not None:
                 val = o.__xpm__.values.get(name)
                 out.append(dict(node=i, arg=name, path=None if val is None else canon_path(val)))
-    return dict(jobdir=jobdir, sealed=sealed_before, values=out, exc=exc)
+    return dict(jobdir=jobdir, sealed=sealed_before, values=out, exc=exc, vorder=vorder)
 
 
 def class_table():
@@ -92,10 +136,17 @@ def class_table():
     return tab
 
 
+def decl_table():
+    """declared argument names of every class, declaration order (what xpmvalues() iterates)"""
+    return {name: list(cls.__getxpmtype__().arguments.keys()) for name, cls in S.CLASSES.items()}
+
+
 def run_case(case):
     try:
         a = build_and_submit(case)
-        b = build_and_submit(case, rev=bool(case.get("reorder")))
+        # the second submit is a fresh copy of the same configuration, possibly with its dicts filled in
+        # the opposite order, or with its parameters assigned in another order (order2 / kw2)
+        b = build_and_submit(case, rev=bool(case.get("reorder")), second=bool(case.get("reassign")))
         return dict(first=a, second=b)
     except Exception as e:  # noqa
         import traceback
@@ -110,7 +161,7 @@ def main():
     with experiment(wd, "c17", port=-1):
         for c in payload["cases"]:
             res.append(run_case(c))
-    print(json.dumps(dict(classes=class_table(), answers=res)))
+    print(json.dumps(dict(classes=class_table(), decls=decl_table(), answers=res)))
 
 
 if __name__ == "__main__":
